@@ -289,11 +289,35 @@ func genRecs(r *simrt.Rand, c *GenCfg, b *Bucket, hot []int64, ids *idGen, n int
 func genWrite(r *simrt.Rand, c *GenCfg, w *Workload, hot map[*Bucket][]int64, ids *idGen) *WOp {
 	b := w.Buckets[r.Intn(len(w.Buckets))]
 	n := 1 + r.Intn(c.MaxRows)
+	gc, gh := c, hot[b]
 	if r.Pct(c.BigRowsPct) {
 		n = 100 + r.Intn(60)
+		if r.Pct(60) {
+			// a large request for ONE year file (the writer batches 100 or more
+			// commands per file through its buffered block writer), most rows on a few
+			// intervals that come back again and again, usually not in time order
+			n = 110 + r.Intn(200)
+			y := c.Years[r.Intn(len(c.Years))]
+			c2 := *c
+			c2.Years = []int{y}
+			c2.HotPct = 75
+			if c.UnsortedPct > 0 || r.Pct(50) {
+				c2.UnsortedPct = 70
+			}
+			var h2 []int64
+			for _, t := range hot[b] {
+				if t >= yearStart(y) && t < yearStart(y+1) {
+					h2 = append(h2, t)
+				}
+			}
+			for len(h2) < 6 {
+				h2 = append(h2, yearStart(y)+int64(1+r.Intn(300))*24*int64(time.Hour)+int64(r.Intn(86400))*1e9)
+			}
+			gc, gh = &c2, h2
+		}
 	}
 	op := &WOp{Kind: "write"}
-	wr := &WriteReq{Variable: b.Variable, Parts: []*BucketWrite{{B: b, Recs: genRecs(r, c, b, hot[b], ids, n)}}}
+	wr := &WriteReq{Variable: b.Variable, Parts: []*BucketWrite{{B: b, Recs: genRecs(r, gc, b, gh, ids, n)}}}
 	op.W = append(op.W, wr)
 	if r.Pct(c.MultiPct) && len(w.Buckets) > 1 {
 		// a second WriteRequest in the same MultiWriteRequest, for another bucket
